@@ -102,7 +102,8 @@ RULE = ("random fermionic programs (length <= 5) over arrays whose pending-sign 
         "is and with phase_sync() applied to every operand and after every step; all step results and terminal "
         "observations (to_dense, sum, norm, abs, max, min, trace, singular values, eigh reconstruction) must agree, "
         "and agree with the Lean model. non-trivial: the pending table is non-empty at some observed operation"
-        '; solve(A, b) with pending signs on b and A vs their synchronised copies')
+        '; solve(A, b) with pending signs on b and A vs their synchronised copies; arrays derived from a lazily signed '
+        'matrix (qr/svd/svd_truncated factors, sync_charges, align_axes, copy, copy_with) synchronised in place must not move the source')
 ANCHORS = {"fermionic_core.py": ["phase_sync", "phase_flip", "phase_transpose", "phase_global", "transpose", "conj",
                                  "to_dense", "_binary_blockwise_op", "trace", "__matmul__", "fuse", "unfuse",
                                  "_do_reduction", "_do_unary_op"],
@@ -271,10 +272,72 @@ def solve_case(rng):
                 nontrivial=True, op="solve", triggers=[])
 
 
+def derived_case(rng):
+    """pending signs are applied exactly once: an array DERIVED from a lazily signed one (decomposition factors,
+    align_axes / sync_charges results, copies) is synchronised in place; the source array's value must not move
+    (and vice versa)"""
+    import symmray as sr
+
+    sym = rng.choice(gen.SYMS)
+    i1 = gen.rand_index(rng, sym, max_charges=3, max_size=2)
+    i2 = gen.rand_index(rng, sym, max_charges=3, max_size=2)
+    x = gen.rand_array(rng, sym, indices=[i1, i2], fermi=True, dtype=rng.choice(["float64", "complex128"]),
+                       keep=rng.choice([0.6, 1.0]), pending=True, charge=gen.py_combine(sym, []) if rng.random() < 0.5 else None)
+    env = {"x": x}
+    steps = [{"out": ["y"], "op": "transpose", "in": ["x"], "params": {"axes": [1, 0]}}]
+    res, env2 = impl.run_prog(env, steps)
+    y = env2.get("y")
+    orc = None
+    which = rng.choice(["qr", "svd", "svd_truncated", "sync_charges", "align_axes", "copy", "copy_with"])
+    if y is not None and y.blocks:
+        before = _val(y)
+        raw_before = ser.enc_array(y)
+        try:
+            if which == "qr":
+                derived = list(sr.linalg.qr(y))
+            elif which == "svd":
+                u, s_, vh = sr.linalg.svd(y)
+                derived = [u, vh]
+            elif which == "svd_truncated":
+                u, s_, vh = sr.linalg.svd_truncated(y, max_bond=rng.randint(1, 4), absorb=rng.choice([None, -1, 0, 1]))
+                derived = [u, vh]
+            elif which == "sync_charges":
+                derived = [y.sync_charges()]
+            elif which == "align_axes":
+                z = y.conj()
+                derived = list(sr.align_axes(y, z, ((0,), (0,))))
+            elif which == "copy":
+                derived = [y.copy()]
+            else:
+                derived = [y.copy_with()]
+            dvals = []
+            for d in derived:
+                if isinstance(d, sr.FermionicArray):
+                    dvals.append(_val(d))
+                    d.phase_sync(inplace=True)
+            if _val(y) != before or ser.enc_array(y) != raw_before:
+                orc = (f"synchronising in place an array derived from a lazily signed array ({which}) changed the "
+                       "source array: its pending signs are no longer applied exactly once")
+            else:
+                # and the other direction: synchronising the source must not move the derived arrays
+                derived2 = [y.sync_charges(), y.copy_with()]
+                dv = [_val(d) for d in derived2]
+                y2 = y.phase_sync(inplace=True)
+                if [_val(d) for d in derived2] != dv:
+                    orc = "synchronising a lazily signed array in place changed the value of arrays derived from it"
+        except np.linalg.LinAlgError:
+            pass
+    case = {"kind": "prog", "env": {k: ser.enc_val(v) for k, v in env.items()}, "steps": steps}
+    return dict(case=case, impl=stream.strip_py(res), oracle=orc,
+                meta=dict(sym=sym, fermi=True, kind="derived-sync", which=which, pending=True),
+                nontrivial=True, op="derived-sync", triggers=[])
+
+
 def gen_cases(seed, chunk, n, tier):
     rng = random.Random(seed * 7919 + chunk * 104729 + 9)
     out = [hermitian_case(rng) for _ in range(max(1, n // 8))]
     out += [solve_case(rng) for _ in range(max(1, n // 8))]
+    out += [derived_case(rng) for _ in range(max(1, n // 6))]
     for _ in range(n):
         env0, steps, results, meta = progs.rand_program(rng, fermi=True, length=rng.randint(1, 5), pending=True)
         # rebuild python env from the encoded one is avoided: regenerate by replaying on decoded arrays
